@@ -26,6 +26,10 @@ EXPLANATION = (
   ' (CMP-activity) an element or animation step is active on the half-open interval [begin, end): begin inclusive, end exclusive, None unbounded;'
   " (TAB-applies) every style property's processor lists the element kinds it applies to as in the TTML2 / IMSC table;"
   ' (UNATTACHED) style computation never reads the source document through an element that was created for the ISD;'
+  ' (LINT-l) no tuple / list / set display of the anchored modules lists the same computed component twice and no dict display repeats a key (a key or fingerprint built that way cannot tell apart what the missing component would have);'
+  " (DEP-frame) in _process_element the interval of an animation step is resolved against the interval of the element that carries it, and the children receive that element's interval as their parent interval, so the step that is active at t is the one TTML prescribes;"
+  ' (STATE-share) no assignment stores a container field of one object (a field the package updates in place) into a field of another object without copying it, so an in-place update of one object never changes another;'
+  " (ITEM-source) an object built once per item of an inner loop is filled only with values that derive from that item or do not vary with the loops, never with a value of the enclosing container standing where the item's own belongs;"
 )
 RULE_TEXT = "per ordering pair, guard, property x {inherited, initial, applies-to}, _compute_length call site, unit"
 UNDECIDED = ["numeric values (em-of-%-of-c chains, position edge arithmetic, ruby half size)", "tts:disparity applicability (not established from the specification)"]
@@ -380,5 +384,8 @@ def run(ctx):
   check_unattached(ctx)
   # the animation step that is active at t decides the value: [begin, end) as in C01
   isdrules.check_activity_guards(ctx)
+  # ... and its interval is resolved against the element that carries the step
+  nf = isdrules.check_frames(ctx, ctx.ix.func("ttconv.isd:ISD._process_element"), recursive_name="_process_element")
+  ctx.floor("DEP-frame", "frame agreement sites in _process_element", nf, 2)
   shape.check_cache_keys(ctx, common.funcs(ctx, ["ttconv.isd"]))
   common.check_history_independence(ctx, common.CORE)
